@@ -553,11 +553,10 @@ def classify_nsum(mp, desc, f, p, units):
         # finite partition fixed a priori: method x series class x precision bucket (maxterms = 10*dps is smallest at low precision)
         canon = {'r': 'richardson', 's': 'shanks', 'l': 'levin', 'a': 'alternating', 'e': 'euler-maclaurin', 'd': 'direct'}
         dps = __import__('mpmath').libmp.prec_to_dps(p)     # maxterms defaults to 10*dps; 53 bits (the default precision) is dps 15
-        a0 = desc['range'][0][0]
-        a0 = -int(desc['range'][0][1]) if isinstance(a0, str) and not isinstance(desc['range'][0][1], str) else (0 if isinstance(a0, str) else int(a0))
-        start = 'negative-start' if a0 < 0 else ('shifted-start' if a0 >= 3 else 'start-0-2')
-        return 'C27/nsum/not-converged-at-maxterms-best-estimate-returned-silently/%s/%s/%s/%s' % (
-            canon.get(method, method), desc['series']['cls'], 'dps<=14' if dps <= 14 else 'dps>=15', start), round(min(units, 1e6), 1)
+        # key = (method, series class): the mechanism is 'gave up at maxterms = 10*dps and said nothing'; precision / start of the
+        # range only decide how many terms would have been needed (observed from 30 up to ~61 bits with shifted or negative starts)
+        return 'C27/nsum/not-converged-at-maxterms-best-estimate-returned-silently/%s/%s' % (
+            canon.get(method, method), desc['series']['cls']), round(min(units, 1e6) / p, 3)
     return None, None
 
 
@@ -676,11 +675,9 @@ def run_nprod(mp, rec, desc):
                 m = kw.get('method', 'r+s')
                 rec.case(repr(jd), True, cls=label + '/in')
                 rec.event('decided by: ' + tier)
-                a0 = -b if a == '-inf' else a
-                rec.violation('C27/nprod/not-converged-at-maxterms-best-estimate-returned-silently/%s/%s/%s/%s' % (
-                    canon.get(m, m), cls, 'dps<=14' if dps <= 14 else 'dps>=15', 'shifted-start' if a0 >= 3 else 'start-0-2'),
+                rec.violation('C27/nprod/not-converged-at-maxterms-best-estimate-returned-silently/%s/%s' % (canon.get(m, m), cls),
                     'nprod off by 2^%.1f * 2^-p * |V|' % units,
-                    dict(jd, why_outside=[]), observed=Q.show(v), expected=expect, severity=round(units, 1))
+                    dict(jd, why_outside=[]), observed=Q.show(v), expected=expect, severity=round(units / p, 3))
                 return
     if 'e' in kw.get('method', '') and b == '+inf' and inside:
         # mechanism: nprod(method with 'e') sums log(f(k)) by Euler-Maclaurin; in the tail integral f(x) rounds to 1 for
